@@ -8,11 +8,11 @@ from lib import core, build
 
 RUNS = {
     "C12": {"quick": [["spin", "ticket", "4", "30000"], ["spin", "simple", "4", "30000"], ["spin", "ticket", "2", "60000"], ["spin", "simple", "8", "10000"]],
-            "thorough": [["spin", k, str(t), str(n)] for k in ("ticket", "simple") for t, n in ((2, 2000000), (3, 1000000), (4, 1000000), (8, 300000), (16, 100000))]},
+            "thorough": [["spin", k, str(t), str(n)] for k in ("ticket", "simple") for t, n in ((2, 2000000), (3, 1000000), (4, 500000), (8, 100000))]},
     "C10": {"quick": [["radix", "3", "20000", "1"], ["radix", "2", "20000", "2"], ["radix", "6", "8000", "3"]],
-            "thorough": [["radix", str(r), str(n), str(s)] for r, n in ((2, 400000), (3, 300000), (6, 200000), (12, 100000)) for s in (1, 2, 3)]},
+            "thorough": [["radix", str(r), str(n), str(s)] for r, n in ((2, 400000), (3, 300000), (6, 200000), (8, 100000)) for s in (1, 2, 3)]},
     "C11": {"quick": [["qs", "3", "10000", "1"], ["qs", "1", "10000", "2"], ["qs", "6", "4000", "3"]],
-            "thorough": [["qs", str(r), str(n), str(s)] for r, n in ((1, 400000), (2, 300000), (3, 300000), (6, 150000), (12, 50000)) for s in (1, 2, 3)]},
+            "thorough": [["qs", str(r), str(n), str(s)] for r, n in ((1, 400000), (2, 300000), (3, 300000), (6, 150000), (8, 50000)) for s in (1, 2, 3)]},
 }
 
 
@@ -27,11 +27,18 @@ def tsan_witness(ctx):
         e = dict(os.environ)
         e["TSAN_OPTIONS"] = "halt_on_error=1:exitcode=79:report_signal_unsafe=0"
         try:
-            p = subprocess.run([binary] + a, stdout=subprocess.PIPE, stderr=subprocess.PIPE, text=True, env=e, timeout=1500)
+            p = subprocess.run([binary] + a, stdout=subprocess.PIPE, stderr=subprocess.PIPE, text=True, env=e, timeout=600)
         except subprocess.TimeoutExpired:
-            ctx.report("%s/tsan/hang/%s" % (ctx.pid, a[0]), "ThreadSanitizer witness %s did not finish within 1500 s (a call that never returns)" % a)
-            break
+            # wall-clock time is not evidence (a FIFO ticket lock with many spinning threads on a busy machine convoys for
+            # minutes): a witness that does not finish is inconclusive, never a verdict - calls that do not return are decided by
+            # the model (liveness under fairness) and by the cooperative scheduler's stall detection, which count steps, not seconds
+            ctx.notes.append("TSan witness %s inconclusive: not finished within the time limit on this machine" % a)
+            continue
         n += 1
+        if p.returncode == 89:
+            # the witness' own progress bound (a spin count) ran out: scheduling-dependent, inconclusive like a timeout
+            ctx.notes.append("TSan witness %s inconclusive: its progress bound ran out on this machine" % a)
+            continue
         if p.returncode != 0:
             full = p.stderr or ""
             what = full[:4000]
